@@ -77,6 +77,17 @@ class Bus:
         self.rawmode.clear()
         self.spin = False
 
+    def reload(self, config_xml):
+        """Rewrite the configuration file and make the running bus re-read it (connections stay)."""
+        sock = os.path.join(self.h.rundir, 'bus.sock')
+        cfgpath = os.path.join(self.h.rundir, 'bus.conf')
+        with open(cfgpath, 'w') as f:
+            f.write(config_xml.replace('@SOCK@', sock).replace('@RUNDIR@', self.h.rundir))
+        self.config = config_xml
+        r = self.h.cmd('RELOAD')
+        if not r.startswith('OK'):
+            raise BusError('reload failed: ' + r)
+
     def close(self):
         if self.own_harness:
             self.h.close()
